@@ -172,3 +172,13 @@ Theorem runs_no_crossing : forall (cmp : tree -> tree -> comparison) (g : granul
   Forall2 (run_rel cmp g) (seg ig None items) (visit_items cmp g grp reorder ig items).
 Proof. exact Lemmas.runs_no_crossing. Qed.
 Print Assumptions runs_no_crossing.
+
+(* P4 with a purely syntactic hypothesis: a run without any `as` never hits AliasClash, so Module, Crate
+   and One keep its imports as soon as it has no nested empty list *)
+Theorem noalias_leaves : forall (cmp : tree -> tree -> comparison) (g : granularity) (ts : list tree),
+  g = Module \/ g = GCrate \/ g = One ->
+  forallb ast_shape ts = true -> forallb noalias ts = true ->
+  NestedEmptyList (map (normalize cmp) ts) = false ->
+  SameSet (Leaves (with_granularity cmp g (map (normalize cmp) ts))) (Leaves ts).
+Proof. exact Lemmas.noalias_leaves. Qed.
+Print Assumptions noalias_leaves.
